@@ -75,7 +75,13 @@ class Gen:
         ps = []
         for i in range(k):
             ty = self.rng.choice(TYPES[:4] + ["bits<2>", "list<int>"])
-            dflt = {"int": " = 1", "bit": " = true", "string": ' = "d"'}.get(ty, "") if self.rng.random() < 0.3 else ""
+            dflt = ""
+            if self.rng.random() < 0.4:
+                dflt = " = " + self.rng.choice({
+                    "int": ["1", "!add(1, 2)", "!cond(1: 1, true: 2)", "!if(1, 2, 3)", "!cond(!lt(1, 2): 3, true: 4)"],
+                    "bit": ["true", "!eq(1, 2)", "!cond(1: true, true: false)"],
+                    "string": ['"d"', '!strconcat("a", "b")', '!cond(1: "x", true: "y")'],
+                    "dag": ["(op 1)"], "bits<2>": ["{1, 0}", "?"], "list<int>": ["[1]", "[]", "!cond(1: [1], true: [2])"]}.get(ty, ["?"]))
             ps.append("%s p%d%s" % (ty, i, dflt))
         return "<" + ", ".join(ps) + ">" if ps else ""
 
@@ -164,7 +170,9 @@ class Gen:
             for _ in range(nstmts or self.rng.randint(1, 5)):
                 parts.append(self.stmt(known, table))
             sep = self.rng.choice(["\n", "\n\n", " "])
-            texts[p] = sep.join(parts) + self.rng.choice(["", "\n"])
+            # non-ASCII text before everything else in a quarter of the files (byte offsets != character indices)
+            pre = self.rng.choice(["", "", "", "// caf\u00e9 \u65e5\u672c\n", "/* \U0001F600 */ "])
+            texts[p] = pre + sep.join(parts) + self.rng.choice(["", "\n"])
         files = [[p, texts[p]] for p in order]
         # a file that is NOT included: its classes are not classes of the workspace
         outside = {}
